@@ -129,10 +129,20 @@ def state_names_for(rng, var, k, kind):
 GRID = [0.05, 0.1, 0.2, 0.3, 0.45, 0.6, 0.8, 1.0, 1.5, 2.0]
 
 
-def rand_column(rng, r, zeros=True):
-    """A probability column of length r with exact zeros / deterministic columns mixed in."""
+def rand_column(rng, r, zeros=True, tiny=0.0):
+    """A probability column of length r with exact zeros / deterministic columns mixed in.
+    tiny: probability that the column has entries of very different magnitude (down to ~1e-13)."""
     if r == 1:
         return [1.0]
+    if tiny and rng.random() < tiny:
+        col = [rng.choice(GRID) * (0.5 + rng.random()) for _ in range(r)]
+        for i in rng.sample(range(r), rng.randint(1, r - 1)):
+            col[i] *= 10.0 ** (-rng.uniform(6, 13))
+        s = sum(col)
+        col = [c / s for c in col]
+        i = max(range(r), key=lambda t: col[t])
+        col[i] = 1.0 - sum(c for t, c in enumerate(col) if t != i)
+        return col
     mode = rng.random()
     if zeros and mode < 0.12:
         col = [0.0] * r
@@ -154,15 +164,15 @@ def rand_column(rng, r, zeros=True):
     return col
 
 
-def rand_cpt(rng, r, q, zeros=True):
-    cols = [rand_column(rng, r, zeros) for _ in range(q)]
+def rand_cpt(rng, r, q, zeros=True, tiny=0.0):
+    cols = [rand_column(rng, r, zeros, tiny) for _ in range(q)]
     return [[cols[j][i] for j in range(q)] for i in range(r)]
 
 
 # ------------------------------------------------------------------------- BN specs
 def rand_bn_spec(rng, n=None, n_range=(1, 6), cards=(1, 2, 2, 2, 3, 3, 4), kind=None,
                  zeros=True, shape=None, max_parents=3, names=None, max_joint=4096,
-                 latent_frac=0.0, min_card=1):
+                 latent_frac=0.0, min_card=1, tiny=0.0):
     """A random discrete BN spec:
       nodes  : list of names
       edges  : list of (u, v)
@@ -193,7 +203,7 @@ def rand_bn_spec(rng, n=None, n_range=(1, 6), cards=(1, 2, 2, 2, 3, 3, 4), kind=
         q = 1
         for p in pa:
             q *= card[p]
-        cpds[v] = {"parents": pa, "table": rand_cpt(rng, card[v], q, zeros)}
+        cpds[v] = {"parents": pa, "table": rand_cpt(rng, card[v], q, zeros, tiny)}
     latents = [v for v in nodes if rng.random() < latent_frac]
     return {"nodes": nodes, "edges": [list(e) for e in edges], "card": card,
             "states": states, "cpds": cpds, "latents": latents, "kind": kind}
